@@ -173,7 +173,8 @@ static int hwv_run(const char *inpath, const char *outpath, hwv_handler h) {
           static char rst[] = "reset 1"; char *one[1]; char tmp[16]; int fd2;
           memcpy(tmp, rst, sizeof rst); one[0] = tmp;
           hwv_quiet = 1; h(one, 1, (int)b + hwv_beh_base); hwv_quiet = 0;
-          fd2 = dup(2); { int nul = open("/dev/null", O_WRONLY); if (nul >= 0) { dup2(nul, 2); close(nul); } }
+          fd2 = getenv("HWV_LEAKREPORT") ? -1 : dup(2);          /* HWV_LEAKREPORT=1: let LeakSanitizer print its report (diagnosis) */
+          if (fd2 >= 0) { int nul = open("/dev/null", O_WRONLY); if (nul >= 0) { dup2(nul, 2); close(nul); } }
           if (__lsan_do_recoverable_leak_check()) {
             char line[64]; int n2;
             if (fd2 >= 0) { dup2(fd2, 2); close(fd2); }
